@@ -309,6 +309,13 @@ class LinearPaths:
       l = ls[0]
       if not l.overlap:
         cut = 0
+        if l.record_type == "E":
+          # without alignment, the positions of the edge give the length
+          # of the overlap: the interval on the segment which is appended
+          if l.sid2.name == b.name:
+            cut = gfapy.posvalue(l.end2) - gfapy.posvalue(l.beg2)
+          else:
+            cut = gfapy.posvalue(l.end1) - gfapy.posvalue(l.beg1)
       elif all(op.code in ["M","="] for op in l.overlap):
         cut = sum([len(op) for op in l.overlap])
       else:
